@@ -268,6 +268,10 @@ def const_interval(conds, term, lo0=-float('inf')):
     return lo, hi
 
 
+# diverging entry points of core that take nothing but the `&'static str` message
+PANIC_WITH_MESSAGE = ('core::option::expect_failed', 'core::panicking::panic', 'core::panicking::panic_explicit', 'core::panicking::panic_str_2015')
+
+
 def assert_redundant(ev, conds):
     """an overflow assertion that cannot fail under the path's conditions"""
     c = ev.get('cond')
@@ -478,7 +482,9 @@ def canon_path(facts, p, table, depth=0, skip=0, outer=None):
         return expand_closures(facts, p, t, table, depth, evmap)
     for e in kept:
         kind = e['kind']
-        if kind == 'call':
+        if kind == 'call' and (e.get('rpath') or e['path']) in PANIC_WITH_MESSAGE:
+            evs.append(('call', e.get('rpath') or e['path']))     # which words the panic carries is no behaviour
+        elif kind == 'call':
             rv = tuple(sorted((i, nm.rn(norm(expand_closures(facts, p, v, table, depth, evmap)))) for i, v in (e.get('refvals') or {}).items()))
             evs.append(('call', e.get('rpath') or e['path'], nm.rn(norm(tuple(e['args']))), nm.rn(norm(e.get('f'))) if e.get('f') else None,
                         tuple(norm(a) for a in e['callee']['args']) if e.get('callee') else None, rv, callee_fingerprint(facts, e.get('callee'), table.get('root'))))
